@@ -26,8 +26,9 @@ fn content(patchy: bool) -> Vec<u8> {
 
 pub fn h_verify() {
     let root = sym::fs_root();
-    let (name, is_patch) = match sym::choose("file", 4) {
+    let (name, is_patch) = match sym::choose("file", 5) {
         0 => ("d.tar.gz", false),
+        4 => ("emul-patch-1.0.tgz", false),
         1 => ("sub/d.tgz", false),
         2 => ("patch-aa", true),
         _ => ("patch-2.7.tar.xz", false),
